@@ -107,7 +107,7 @@ def checker_assignment_documents(case):
 def run_native(case, profile='dev'):
     if case.get('kind') == 'checker_assignment':
         case = checker_assignment_documents(case)
-    if case.get('kind') == 'location_index':
+    if case.get('kind') in ('location_index', 'id_rules'):
         case = dict(case, kind='job_rules')
     if case.get('kind') == 'job_tag':
         case = job_tag_documents(case)
@@ -919,6 +919,13 @@ def evaluate(case, native):
             return True, (f'route level: locked job {"rejected" if native["locked_rejected"] else "admitted"} while the lock condition {"holds" if case["condition_holds"] else "does not hold"} '
                           f'for the vehicle; unrelated job {"rejected" if native["free_rejected"] else "admitted"}')
         return False, 'lock rule agrees'
+    if kind == 'id_rules':
+        reported = case['rule'] in native['codes']
+        if reported != case['broken']:
+            fleet = [(v['typeId'], v['vehicleIds'], v['costs']) for v in case['problem']['fleet']['vehicles']]
+            return True, (f'validator {"reports" if reported else "does not report"} {case["rule"]} although the documented rule is {"broken" if case["broken"] else "not broken"}: '
+                          f'job ids {[j["id"] for j in case["problem"]["plan"]["jobs"]]}, vehicle types {fleet} (all codes: {native["codes"]})')
+        return False, f'{case["rule"]}: reported={reported} agrees with the documented rule'
     if kind == 'statistic_sum':
         for k_ in ('cost', 'distance', 'duration', 'driving', 'serving', 'waiting', 'break_time', 'commuting', 'parking'):
             want = case['a'][k_] + case['b'][k_]
